@@ -107,7 +107,7 @@ Definition lookups_ok (es : list ev) (calls : list ocall) : bool :=
 Definition calls_ok (es : list ev) (calls : list ocall) : bool :=
   list_eqb ocall_eqb (model_fc es) (filter ocall_is_fc calls) && lookups_ok es calls.
 
-Definition check_output : bool := false. (* DEV *)
+Definition check_output : bool := true.
 Definition resp_ok (r : response) (sn : option snapshot) (es : list ev) (o : eobs) : bool :=
   Bool.eqb (r_cont r) (eo_cont o)
   && ostat_eqb (ostat_of (r_exec r)) (eo_exec o)
